@@ -13,6 +13,10 @@ use sst::{Builder, Cursor, KeyValuePair, KeyValueRef, SstBuilder, check_key_len,
 use sync42::wait_list::WaitList;
 
 mod memtable;
+#[cfg(blue_verif)]
+mod verif_hooks;
+#[cfg(blue_verif)]
+pub use verif_hooks::VerifState;
 
 use crate::{
     LOG_FILE, LsmTree, LsmtkOptions, MANI_ROOT, SError, SST_FILE, TEMP_FILE, TEMP_ROOT, TRASH_ROOT,
